@@ -122,7 +122,9 @@ func (fr *Frame) cutLoop(li *loopInfo) *State {
 			body = append(body, b)
 		}
 	}
+	li.headState = disc.clone() // nested loops refer to it through pre()
 	fr.runBlocks(body, disc)
+	li.headState = nil
 	c.specMode--
 	log := append([]writeRec(nil), c.writeLog[snap.writeLog:]...)
 	c.writeLog = c.writeLog[:snap.writeLog]
@@ -278,5 +280,8 @@ func (fr *Frame) backEdge(b, h *ssa.BasicBlock, e *State) {
 				o.Replay = plan
 			}
 		}
+		// later step clauses of this loop may build on this one (each is still
+		// proved on its own, in order)
+		c.assume(e.reach, g)
 	}
 }
